@@ -50,7 +50,7 @@ type lifeWorld struct {
 var lifeDocText = map[string]string{}
 
 var freshDocText = map[string]string{"d1": `{"a": 1, "c": 3, "abc": 2}`, "d2": `{"a": 1}`, "d3": `{"a": `, "d4": `{"c": 3}`,
-	"d5": `{"it": {"id": 5}}`, "d6": `{"it": {"id": 5, "name": "x"}}`, "d7": `{"a": 1}`, "d8": `{"a": 1, "b": 2}`, "d9": `{}`, "d10": `{"x": {}}`}
+	"d5": `{"it": {"id": 5}}`, "d6": `{"it": {"id": 5, "name": "x"}}`, "d7": `{"a": 1}`, "d8": `{"a": 1, "b": 2}`, "d9": `{}`, "d10": `{"x": {}}`, "d11": `{"user": {"id": 5}}`, "d12": `{"user": {"id": 0}}`}
 
 func newLifeWorld() *lifeWorld { return newLifeWorldP(false) }
 
@@ -65,8 +65,8 @@ func newLifeWorldP(private bool) *lifeWorld {
 		}
 		return s
 	}
-	w.schemas["s1"] = mk("s1", "{\n  \"a\": @T,\n  \"c\": 3,\n  \"b\": [ // {optional: true}\n    1\n  ],\n  \"abc\": 2 // {optional: true}\n}", map[string]string{"@T": "1 // {min: 0}"})
-	w.schemas["s2"] = mk("s2", "{\n  \"a\": 1 // {min: 5}\n}", nil)
+	w.schemas["s1"] = mk("s1", "{\n  \"a\": @T,\n  \"c\": 3,\n  \"b\": [ // {optional: true}\n    1\n  ],\n  \"abc\": 2 // {optional: true}\n} # the end", map[string]string{"@T": "1 // {min: 0}"})
+	w.schemas["s2"] = mk("s2", "{\n  \"a\": 1 // {min: 5}\n} ### the end ###", nil)
 	w.schemas["s3"] = mk("s3", "{\n  \"a\": 1,\n  \"r\": @Rec // {optional: true}\n}", map[string]string{"@Rec": "{\n  \"r\": @Rec, // {optional: true}\n  \"x\": 1\n}"})
 	w.schemas["s4"] = mk("s4", "{\n  @K: 1, // {optional: true}\n  @K2: 2, // {optional: true}\n  \"a\": 1 // {optional: true}\n}",
 		map[string]string{"@K": "\"abc\" // {regex: \"^ab\"}", "@K2": "\"abc\" // {minLength: 3}"})
@@ -100,6 +100,13 @@ func newLifeWorldP(private bool) *lifeWorld {
 	_ = w.schemas["s9"].AddType("@t", pt())
 	w.schemas["s10"] = jschema.New("s10", "@t")
 	_ = w.schemas["s10"].AddType("@t", pt())
+	// one type object that refers to @id, under a root that has @id and under a root that lacks it
+	pu := shared("@user", "{\n  \"id\": @id\n}")
+	w.schemas["s11"] = jschema.New("s11", "{\n  \"user\": @user\n}")
+	_ = w.schemas["s11"].AddType("@user", pu())
+	_ = w.schemas["s11"].AddType("@id", jschema.New("@id", "1 // {min: 1}"))
+	w.schemas["s12"] = jschema.New("s12", "{\n  \"user\": @user\n}")
+	_ = w.schemas["s12"].AddType("@user", pu())
 	for _, x := range []string{"x1", "x2", "x3"} {
 		w.docs[x] = jdoc.New(x, lifeDocText[x])
 	}
